@@ -13,7 +13,7 @@ EXPLANATION = (
     "beyond RCV.NXT (circular comparison of the peeked segment's SEQ with self.rcv.nxt) or the state is SYN-SENT, and "
     "pops exactly the segment it peeked; (T-ACK-PRUNE) every write of SND.UNA is followed on every path to a "
     "non-deleting return by remove_acked_from_retransmission(SND.UNA) (LAST-ACK is the tabled exception); "
-    "(T-APPEND) the send and receive byte streams of the TCB grow only at their end; (T-RETX-ARM) the timeout branch of advance_time re-arms every queued segment, every element of the "
+    "(T-HEAPORD) the reordering heap's Ord for Segment is the reversed circular order of SEQ at every distance and base (shared with C12); (T-APPEND) the send and receive byte streams of the TCB grow only at their end; (T-RETX-ARM) the timeout branch of advance_time re-arms every queued segment, every element of the "
     "retransmission queue is built by Transmit::new (armed), and segments() emits exactly the armed ones; "
     "(T-SYNSENT, T-WINDOW) shared with C17. Breaking any of them breaks the stream for some admissible schedule. "
     "Not decided: prefix/exactly-once/convergence themselves (schedules x byte strings need execution or a proof).")
@@ -37,45 +37,105 @@ def _una_vs_end(rel, a_is_end, b_is_end):
     return None
 
 
+def _keep_semantics(S, keep, what):
+    """`keep` (true = the queue entry stays) must be: SND.UNA < SEQ + LEN in the circular order, i.e. with
+    d = (SEQ + LEN - UNA) mod 2^32: keep iff 1 <= d < 2^31. Decided by evaluating the extracted condition at every
+    critical distance for several segment lengths (the band around 2^31 is a don't-care)."""
+    M = 1 << 32
+    is_seq = lambda x: x[0] == "field" and x[2] == "seq"
+    is_len = lambda x: x[0] == "call" and x[1].rsplit("::", 1)[-1] == "seg_len"
+    seqs = S.atoms(keep, is_seq)
+    lens = S.atoms(keep, is_len)
+    others = [x for x in S.atoms(keep, lambda x: x[0] in ("local", "param") or (x[0] == "field" and not is_seq(x) and _root_kind(x) in ("local", "param")))
+              if not any(_contains(q, x) for q in seqs + lens)]
+    if len(seqs) != 1:
+        return ["%s does not look at the segment's sequence number" % what]
+    if len(others) != 1:
+        return ["%s does not compare against exactly one acknowledgment value (%d candidates)" % (what, len(others))]
+    una = others[0]
+    bad = None
+    n = 0
+    for u0 in (1000, M - 2, (1 << 31) + 5):
+        for l in (1, 2, 1460):
+            for d in sorted({0, 1, 2, 3, l - 1, l, l + 1, 1 << 16, (1 << 31) - 3, (1 << 31) + 3, M - 3, M - 2, M - 1, M - l, M - l - 1}):
+                if d < 0 or (1 << 31) - 2 <= d <= (1 << 31) + 2:
+                    continue
+                env = {una: u0, seqs[0]: (u0 + d - l) % M}
+                for q in lens:
+                    env[q] = l
+                try:
+                    got = bool(S.concrete(keep, env, 32))
+                except (KeyError, S.Panics) as e:
+                    return ["%s cannot be evaluated (%r)" % (what, e)]
+                n += 1
+                want = 1 <= d < (1 << 31)
+                if got != want and bad is None:
+                    bad = (l, d if d < (1 << 31) else d - M, got)
+    if bad:
+        l, d, got = bad
+        if not lens:
+            return ["%s ignores the segment length: a segment of %d octets whose end is %d beyond SND.UNA is %s - a partially acknowledged segment must stay queued until its last octet is acknowledged" % (
+                what, l, d, "kept" if got else "dropped")]
+        return ["%s: a segment of %d octet(s) whose end (SEQ+LEN) is %d %s SND.UNA is %s; an entry must stay queued exactly while SND.UNA < SEQ+LEN" % (
+            what, l, abs(d), "beyond" if d > 0 else "at or before", "kept" if got else "dropped although its last octet is not acknowledged")]
+    return []
+
+
+def _root_kind(x):
+    while x[0] in ("field", "cast"):
+        x = x[1]
+    return x[0]
+
+
+def _contains(t, x):
+    if t == x:
+        return True
+    if not isinstance(t, tuple):
+        return False
+    rest = t[1:] if t and isinstance(t[0], str) else t
+    return any(_contains(y, x) for y in rest if isinstance(y, tuple))
+
+
 def removal_rule(prog, rp):
-    """Entries leave outgoing.retransmit exactly on the condition SND.UNA >= SEQ + LEN. Two idioms are understood:
-    an index loop with VecDeque::remove under a comparator branch, and VecDeque::retain with a comparator closure."""
+    """Entries leave outgoing.retransmit exactly on the condition SND.UNA >= SEQ + LEN (circular). Two idioms are
+    understood - an index loop with VecDeque::remove and VecDeque::retain with a closure - and in both the condition
+    is reduced to a formula (comparator primitives inlined) and evaluated (see _keep_semantics)."""
     from .. import symx as S
-    probs = []
+    inl = [k for k in prog.bodies if k.startswith(PRIMS)]
     rem = [(bb, t) for bb, t in K.calls(rp) if (F.callee_key(t) or "").endswith("vec_deque::{impl#5}::remove")]
     ret = [(bb, t) for bb, t in K.calls(rp) if (F.callee_key(t) or "").rsplit("::", 1)[-1] in ("retain", "retain_mut")]
     if len(rem) == 1 and not ret:
         if not dep.has_field(dep.arg_origins(rp, rem[0][0], 0), "Outgoing", "retransmit"):
             return ["remove_acked_from_retransmission does not remove from outgoing.retransmit"]
-        rg = cfg(rp)
-        found = None
-        for s in rg.dom_chain(rem[0][0]):
-            if rp.term(s)[0] != "switch":
+        g = cfg(rp)
+        hdrs = [bb for bb, t in K.calls(rp) if g.dominates(bb, rem[0][0]) and g.in_loop(bb) and (F.callee_key(t) or "").rsplit("::", 1)[-1] in ("get", "next", "front")]
+        if not hdrs:
+            return ["the loop over the retransmission queue was not found"]
+        try:
+            t, _ = S.extract_from(prog, rp, hdrs[0], stop=[hdrs[0]], inline=inl)
+        except S.Unsupported as e:
+            return ["the loop body cannot be reduced to a formula (%s)" % e]
+        # descend to the decision that separates `remove` from `keep`
+        def has_remove(x):
+            return "remove" in S.term_str(x) and any(True for _ in [0])
+        node = t
+        guard = []
+        for _ in range(8):
+            if node[0] == "switch":
+                arms = [y for _v, y in node[2]] + [node[3]]
+                live = [y for y in arms if y[0] not in ("opaque", "unreachable", "unit") and not (y[0] == "state" and y[1][0] != "stop")]
+                if len(live) != 1:
+                    break
+                node = live[0]
                 continue
-            c = dep.switch_condition(rp, s)
-            if not (c and c["kind"] == "call" and (F.callee_key(c["term"]) or "").startswith(PRIMS)):
-                continue
-            nm = (F.callee_key(c["term"]) or "").rsplit("::", 1)[-1]
-            if nm not in CMP_REL:
-                continue
-            a0 = dep.arg_origins(rp, c["call_bb"], 0)
-            a1 = dep.arg_origins(rp, c["call_bb"], 1)
-            is_end = lambda o: dep.has_field(o, "TcpHeader", "seq") and dep.has_call(o, "segment::{impl#0}::seg_len")
-            is_una = lambda o: dep.has_param(o, "snd_una") and not dep.has_field(o, "TcpHeader", "seq")
-            if not ((is_end(a0) and is_una(a1)) or (is_una(a0) and is_end(a1))):
-                continue
-            tr, fa = dep.bool_branches(rp, s)
-            on_true = rg.dominates(tr, rem[0][0]) and not rg.dominates(fa, rem[0][0])
-            on_false = rg.dominates(fa, rem[0][0]) and not rg.dominates(tr, rem[0][0])
-            if not (on_true or on_false):
-                continue
-            rel = CMP_REL[nm] if on_true else NEG[CMP_REL[nm]]
-            found = _una_vs_end(rel, is_end(a0), is_end(a1))
-        if found is None:
-            probs.append("removal is not decided by a circular comparison of SND.UNA with SEG.SEQ + SEG.LEN (a segment must stay queued until its last byte is acknowledged)")
-        elif found != "ge":
-            probs.append("a queue entry is removed when SND.UNA %s SEQ+LEN; it must be removed exactly when SND.UNA >= SEQ+LEN" % {"lt": "<", "le": "<=", "gt": ">"}[found])
-        return probs
+            break
+        if node[0] != "ite":
+            return ["removal from the retransmission queue is not decided by one condition (%s)" % S.term_str(node)[:120]]
+        rm_then, rm_else = "remove!" in S.term_str(node[2]), "remove!" in S.term_str(node[3])
+        if rm_then == rm_else:
+            return ["both / neither branch of the loop body removes the entry"]
+        keep = node[1] if rm_else else ("not", node[1])
+        return _keep_semantics(S, keep, "the removal test")
     if len(ret) == 1 and not rem:
         bb, t = ret[0]
         if not dep.has_field(dep.arg_origins(rp, bb, 0), "Outgoing", "retransmit"):
@@ -83,34 +143,53 @@ def removal_rule(prog, rp):
         kids = [k for k in prog.children(rp) if k.kind == "closure"]
         if len(kids) != 1:
             return ["retain() predicate of remove_acked_from_retransmission not found"]
-        cb = kids[0]
         try:
-            f, _ex = S.extract(prog, cb)
+            f, _ex = S.extract(prog, kids[0], inline=inl)
         except S.Unsupported as e:
             return ["retain() predicate too complex to decide (%s)" % e]
-        neg = False
-        while f[0] == "not":
-            neg = not neg
-            f = f[1]
-        nm = f[1].rsplit("::", 1)[-1] if f[0] == "call" else None
-        if f[0] != "call" or not f[1].startswith(PRIMS) or nm not in CMP_REL:
-            return ["the retain() predicate is not a circular comparison: %s" % S.term_str(f)]
-
-        def cls(x):
-            at = {repr(a) for a, _c in S.lin(x)[0]}
-            has_seq = any("'seq'" in a for a in at)
-            has_len = any("seg_len" in a for a in at)
-            return "end" if has_seq and has_len else "seq" if has_seq else "una"
-        ca, cb_ = cls(f[2][0]), cls(f[2][1])
-        if {ca, cb_} != {"end", "una"}:
-            return ["the retain() predicate compares %s: a segment must stay queued until SND.UNA reaches SEQ + LEN (its last byte), not merely its first byte" % S.term_str(f)]
-        keep = CMP_REL[nm] if not neg else NEG[CMP_REL[nm]]
-        keep = _una_vs_end(keep, ca == "end", cb_ == "end")
-        removed = NEG[keep]
-        if removed != "ge":
-            return ["retain() drops an entry when SND.UNA %s SEQ+LEN; it must drop it exactly when SND.UNA >= SEQ+LEN" % {"lt": "<", "le": "<=", "gt": ">"}[removed]]
-        return []
+        return _keep_semantics(S, f, "the retain() predicate")
     return ["remove_acked_from_retransmission neither removes entries under a comparison nor retains by one (found %d remove, %d retain calls)" % (len(rem), len(ret))]
+
+
+def check_heap_order(ctx, rule="T-HEAPORD"):
+    """The receive reordering queue is a max-heap of Segment: its Ord must be the *reversed circular* order of the
+    sequence numbers (earliest segment = greatest), whatever the absolute values - otherwise segments parked across a
+    sequence wrap (or across 2^31) come out in the wrong order and the in-order gate stalls. Decided by evaluating the
+    extracted comparator (circular primitives inlined) at every critical distance for several bases."""
+    from .. import symx as S
+    from . import netarith as N
+    prog = ctx.prog()
+    b = prog.method("Segment", "cmp", "Ord")
+    key = rule + ":Segment::cmp"
+    inl = [k for k in prog.bodies if k.startswith(PRIMS)]
+    try:
+        t, _ = S.extract(prog, b, inline=inl)
+    except S.Unsupported as e:
+        ctx.require(False, "%s: cannot extract Segment::cmp (%s)" % (rule, e))
+    me, ot = S.params_of(b)
+    SEQ = lambda p_: ("field", ("field", p_, "header"), "seq")
+    M = 1 << 32
+    bad = None
+    n = 0
+    try:
+        for base in (0, 100, (1 << 31) - 3000, (1 << 31) - 1, 1 << 31, M - 70000, M - 2, M - 1):
+            for d in (0, 1, 2, 1460, 65535, 70000, (1 << 31) - 3, (1 << 31) + 3, M - 70000, M - 1460, M - 2, M - 1):
+                a, c = base % M, (base + d) % M
+                got = N._ord_eval(prog, t, {SEQ(me): a, SEQ(ot): c})
+                want = 0 if d == 0 else (1 if d < (1 << 31) else -1)
+                n += 1
+                if got != want and bad is None:
+                    bad = (a, c, got, want)
+    except N.CannotEvaluate as e:
+        ctx.require(False, "%s: Segment::cmp uses a construct the evaluator does not model (%s): no verdict" % (rule, e))
+    nm = {-1: "Less", 0: "Equal", 1: "Greater"}
+    if bad:
+        a, c, got, want = bad
+        ctx.bad(rule, key, b.span,
+                "Ord for Segment = %s: comparing SEQ 0x%08x with SEQ 0x%08x gives %s, the reordering heap needs %s (earlier in the circular order = greater): segments queued across this boundary are popped out of order and delivery stalls" % (
+                    S.term_str(t)[:160], a, c, nm.get(got, got), nm[want]))
+    else:
+        ctx.ok(rule, key, b.span, "Ord for Segment is the reversed circular order of header.seq on all %d (base, distance) points, including across 2^32 and 2^31" % n)
 
 
 def check_inorder(ctx):
@@ -195,6 +274,7 @@ def run(ctx):
     prog = ctx.prog()
     ps = prog.method("Tcb", "process_segment")
     check_inorder(ctx)
+    check_heap_order(ctx)
 
     # ---------------------------------------------------------------- T-ACK-PRUNE
     m = T.TcbModel(prog, ps)
